@@ -151,3 +151,26 @@ Proof.
   - constructor; [split; [reflexivity|exact rc_kb_ref]|]. constructor; [split; [reflexivity|exact rc_ka_ref]|]. constructor.
   - split; [vm_compute; discriminate|vm_compute; reflexivity].
 Qed.
+
+(* ---------- the finding hier-after-dot-own-class-spelling ----------
+   /repo/src/manager/utils.rs search_sym_info_for_node, right operand of a dot: `if left_node_id == cur_class { nearest
+   table } else { get_symbol_table_for_class_def_only(left) }` -- an EXACT-spelling comparison whose two branches do
+   not reach the same symbol when the nearest table is a method's table in which a local / parameter has the member's
+   name: `Fb : aBeta` (as declared) looks `GetLink` up from the method's table and finds the LOCAL variable (no item),
+   `Fb : abeta` goes through the class index and finds the FUNCTION.  Model/HierTree.v classifies the right operand
+   of a dot Outside (so C17_tree_hiertree holds, Outside = Outside); what the two branches read is exhibited here on
+   the real-parser trees of the two spellings. *)
+Theorem hier_after_dot_branches_refuted :
+  ref_sim hd_own hd_other /\ hd_own <> hd_other /\
+  match chain_for hd_own (descend (mkPos 4 9) hd_own) with
+  | Some ch =>
+      option_map (fun h => a_kind (snd h)) (lookup ch (s2l "GetLink")) = Some KVariable /\
+      option_map (fun h => a_kind (snd h)) (lookup (class_level_t ch) (s2l "GetLink")) = Some KFunc
+  | None => False
+  end /\
+  prepare [(s2l "aBeta", hd_own)] (s2l "aBeta", hd_own) (mkPos 4 9) = Outside /\
+  prepare [(s2l "aBeta", hd_other)] (s2l "aBeta", hd_other) (mkPos 4 9) = Outside.
+Proof.
+  split; [refsim|]. split; [intro E; apply (f_equal RecaseOutline.spellings) in E; vm_compute in E; discriminate|].
+  repeat split; vm_compute; reflexivity.
+Qed.
